@@ -2,6 +2,8 @@ package main
 
 import (
 	"fmt"
+	"go/token"
+	"strings"
 
 	"golang.org/x/tools/go/ssa"
 )
@@ -197,6 +199,10 @@ func c03(r *Report) {
 	r.Guard("C03.R2", "a failed or partial response write ends the connection", func() {
 		// a response cut short by the origin stays detectably incomplete when a logger looks at it
 		snapshotBodyAfterCheckRule(r)
+		// ... and when the spec stack strips hop-by-hop headers: those are deleted from the header
+		// map only - the message's framing fields (Content-Length, Transfer-Encoding) are not
+		// reachable through the Connection header
+		hopByHopMapOnlyRule(r)
 		// once the response has been handed to the client connection the exchange tells
 		// the loop only "go on" (nil) or "close" (errClose): an upstream error that was
 		// already answered with a 502 must not reach the loop, where a closeable one
@@ -364,4 +370,27 @@ func newResponseCopiesRule(r *Report) {
 			r.Decide("flow", "M/proxyutil.NewResponse copies "+fld+" from the request", ok, "res."+fld+" = req."+fld, "a synthesised response (502, skipped round trip) does not carry the request's "+fld+": an HTTP/1.0 client is answered as 1.1 (or with the literal default), or its close wish is forgotten", nr.Pos())
 		}
 	}
+}
+
+// hopByHopMapOnlyRule: the hop-by-hop modifier removes fields from the header
+// map and never through proxyutil.Header (which also clears ContentLength and
+// TransferEncoding): an origin that sends `Connection: Content-Length` would
+// otherwise lose its response framing, and a body cut short could no longer be
+// told from a complete one. Shared by C03.R2 and C14.R2.
+func hopByHopMapOnlyRule(r *Report) {
+	w := r.W
+	n := 0
+	for _, f := range w.Funcs("header") {
+		if !strings.Contains(strings.ToLower(fnName(f)), "hopbyhop") {
+			continue
+		}
+		n++
+		r.Touch(f)
+		for _, g := range w.staticReach(f) {
+			for _, c := range calls(g, "(*M/proxyutil.Header).Del", "(*M/proxyutil.Header).Set") {
+				r.Fail("callgraph", fnName(g)+": "+site(g, c)+" edits the message's framing fields", "hop-by-hop removal goes through proxyutil.Header, which also clears Content-Length / Transfer-Encoding on the message: a Connection header that names them strips the framing, and a truncated body is forwarded as a complete one", nil, c.Pos())
+			}
+		}
+	}
+	r.Decide("callgraph", "the hop-by-hop modifier works on the header map", n >= 2, fmt.Sprintf("%d functions", n), "hop-by-hop functions not found", token.NoPos)
 }
